@@ -33,6 +33,7 @@
 #  include <unifex/linux/safe_file_descriptor.hpp>
 
 #  include <atomic>
+#  include <cerrno>
 #  include <cstddef>
 #  include <cstdint>
 #  include <optional>
@@ -550,8 +551,12 @@ class io_epoll_context::read_sender {
       UNIFEX_ASSERT(context_.is_running_on_io_thread());
 
       auto result = readv(fd_, buffer_, 1);
+      if (result < 0) {
+        // readv()/writev() report failure as -1 with the code in errno
+        result = -errno;
+      }
 
-      if (result == -EAGAIN || result == -EWOULDBLOCK || result == -EPERM) {
+      if (result == -EAGAIN || result == -EWOULDBLOCK) {
         UNIFEX_ASSERT(
             static_cast<completion_base*>(this)->enqueued_.load() == 0);
         static_cast<completion_base*>(this)->execute_ =
@@ -626,6 +631,10 @@ class io_epoll_context::read_sender {
           self.context_.epollFd_.get(), EPOLL_CTL_DEL, self.fd_, &event);
 
       auto result = readv(self.fd_, self.buffer_, 1);
+      if (result < 0) {
+        // readv()/writev() report failure as -1 with the code in errno
+        result = -errno;
+      }
       UNIFEX_ASSERT(result != -EAGAIN);
       UNIFEX_ASSERT(result != -EWOULDBLOCK);
       if (result == -ECANCELED) {
@@ -781,8 +790,12 @@ class io_epoll_context::write_sender {
       UNIFEX_ASSERT(context_.is_running_on_io_thread());
 
       auto result = writev(fd_, buffer_, 1);
+      if (result < 0) {
+        // readv()/writev() report failure as -1 with the code in errno
+        result = -errno;
+      }
 
-      if (result == -EAGAIN || result == -EWOULDBLOCK || result == -EPERM) {
+      if (result == -EAGAIN || result == -EWOULDBLOCK) {
         UNIFEX_ASSERT(
             static_cast<completion_base*>(this)->enqueued_.load() == 0);
         static_cast<completion_base*>(this)->execute_ =
@@ -857,6 +870,10 @@ class io_epoll_context::write_sender {
       }
 
       auto result = writev(self.fd_, self.buffer_, 1);
+      if (result < 0) {
+        // readv()/writev() report failure as -1 with the code in errno
+        result = -errno;
+      }
       UNIFEX_ASSERT(result != -EAGAIN);
       UNIFEX_ASSERT(result != -EWOULDBLOCK);
       if (result == -ECANCELED) {
